@@ -37,6 +37,8 @@ def params(draw, tier):
     p["adim"] = draw(st.booleans())
     p["vnorm"] = draw(st.sampled_from([1, 1, 0.5, 3.0]))
     p["vanish"] = draw(st.sampled_from([False, False, True]))
+    # time unit: the same movie with its time stamps in seconds instead of hours or days (junction speeds down to 1e-12)
+    p["tunit"] = draw(st.sampled_from([1.0, 1.0, 1e4, 1e7]))
     return p
 
 
@@ -46,7 +48,7 @@ def check_case(p, ctx):
     n = len(S.frames)
     times = [p["t0"]]
     for dt in p["dts"]:
-        times.append(times[-1] + dt)
+        times.append(times[-1] + dt * p.get("tunit", 1.0))
     vanished = None
     if p["vanish"]:
         # jump one junction by 0.10 * extent (beyond the 0.08 search radius) from frame 1 onwards; usable when nothing
@@ -128,7 +130,10 @@ def check_case(p, ctx):
     # right-hand sides
     zero_speed_frames = set()
     for t in range(n):
-        call(fsys.build_force_matrix, when=t, angle_limit=np.inf)
+        if p["lab_seeds"][-1] % 2:
+            call(fsys.build_force_matrix, when=t, angle_limit=np.inf)
+        else:
+            call(fsys.build_force_matrix, when=t)          # documented default limit (pi): excludes nothing here
         fm = fsys.force_matrices[t]
         rows = dict(fm.map_vid_to_row)
         if not rows:
